@@ -226,6 +226,13 @@ struct Slot<F: Function> {
     trace: Option<(F::Trace, Domain)>,
     chain: usize,
     proto: usize,
+    /// Where this function is known to equal the prototype expression: the
+    /// domain of the trace it was simplified with (None = everywhere).
+    /// Boxes and points for tracing are drawn inside it, which is the
+    /// "chains of simplifications over nested boxes" of the property and
+    /// what makes the regular-point rule (evaluated on the prototype
+    /// expression) meaningful for a child.
+    valid: Option<Domain>,
 }
 
 enum Held<F: Function> {
@@ -428,6 +435,7 @@ impl<'a, F: Function + MathFunction + Clone + Cross> World<'a, F> {
                     trace: None,
                     chain: 0,
                     proto,
+                    valid: None,
                 });
             }
             (d, _) => {
@@ -480,6 +488,61 @@ impl<'a, F: Function + MathFunction + Clone + Cross> World<'a, F> {
             .collect()
     }
 
+    /// Inputs for a tracing evaluation of slot `s`, inside its valid domain
+    fn draw_inputs_for(&mut self, s: usize, nvars: usize) -> Vec<f32> {
+        let mut v = self.draw_inputs(nvars);
+        match self.slots[s].valid.clone() {
+            None => (),
+            Some(Domain::Point(p)) => {
+                for i in 0..nvars.min(p.len()) {
+                    v[i] = p[i];
+                }
+            }
+            Some(Domain::Box(b)) => {
+                for i in 0..nvars.min(b.len()) {
+                    let (lo, hi) = b[i];
+                    let t = self.ch(|c| match c.choose("in_t_kind", 4) {
+                        0 => 0.0,
+                        1 => 1.0,
+                        2 => 0.5,
+                        _ => c.float("in_t", 0.0, 1.0, 16),
+                    });
+                    v[i] = (lo + (hi - lo) * t).clamp(lo, hi);
+                }
+            }
+        }
+        v
+    }
+
+    /// A box for a tracing evaluation of slot `s`, nested in its valid domain
+    fn draw_box_for(&mut self, s: usize, nvars: usize) -> Vec<(f32, f32)> {
+        match self.slots[s].valid.clone() {
+            None => self.draw_box(nvars),
+            Some(Domain::Point(p)) => (0..nvars)
+                .map(|i| {
+                    let v = p.get(i).copied().unwrap_or(0.0);
+                    (v, v)
+                })
+                .collect(),
+            Some(Domain::Box(b)) => (0..nvars)
+                .map(|i| {
+                    let (lo, hi) = b.get(i).copied().unwrap_or((0.0, 0.0));
+                    let (a, z) = self.ch(|c| match c.choose("in_box", 5) {
+                        0 => (0.0, 1.0),
+                        1 => (0.0, 0.5),
+                        2 => (0.5, 1.0),
+                        3 => (0.25, 0.75),
+                        _ => (0.5, 0.5),
+                    });
+                    let w = hi - lo;
+                    let l = (lo + w * a).clamp(lo, hi);
+                    let h = (lo + w * z).clamp(l, hi);
+                    (l, h)
+                })
+                .collect(),
+        }
+    }
+
     fn draw_box(&mut self, nvars: usize) -> Vec<(f32, f32)> {
         (0..nvars)
             .map(|_| {
@@ -505,7 +568,7 @@ impl<'a, F: Function + MathFunction + Clone + Cross> World<'a, F> {
         let fresh_eval = self.all_fresh;
         match kind {
             0 => {
-                let vars = self.draw_inputs(nvars);
+                let vars = self.draw_inputs_for(s, nvars);
                 let (storage, dirty_st) = self.tape_storage(w);
                 if dirty_st {
                     self.rep.count("fault.dirty_tape_storage", 1);
@@ -527,7 +590,7 @@ impl<'a, F: Function + MathFunction + Clone + Cross> World<'a, F> {
                 self.finish_eval(w, s, "point", r, c, Domain::Point(vars), Held::P);
             }
             1 => {
-                let bx = self.draw_box(nvars);
+                let bx = self.draw_box_for(s, nvars);
                 let vars: Vec<Interval> =
                     bx.iter().map(|(a, b)| Interval::new(*a, *b)).collect();
                 let (storage, dirty_st) = self.tape_storage(w);
@@ -930,6 +993,14 @@ impl<'a, F: Function + MathFunction + Clone + Cross> World<'a, F> {
             // where the parent's own evaluator kinds disagree (sign of zero
             // feeding atan2 etc.) the question belongs to C02/C05, not C04
             let gv: Vec<u32> = p.grad.iter().map(|g| g[0]).collect();
+            if p.point.iter().chain(&p.float).chain(&gv).any(|v| *v == 0x7fc0_0000)
+            {
+                // the parent's own value is NaN here: interval enclosure
+                // exempts such points
+                self.rep.skipped_oracle += 1;
+                self.rep.count("oracle.skipped_parent_value_nan", 1);
+                continue;
+            }
             if p.point != p.float || p.point != gv {
                 self.rep.skipped_oracle += 1;
                 self.rep.count("oracle.skipped_parent_kinds_disagree", 1);
@@ -1214,6 +1285,7 @@ impl<'a, F: Function + MathFunction + Clone + Cross> World<'a, F> {
             trace: None,
             chain: chain + 1,
             proto,
+            valid: Some(dom.clone()),
         };
         self.push_slot(w, new);
     }
@@ -1250,6 +1322,7 @@ impl<'a, F: Function + MathFunction + Clone + Cross> World<'a, F> {
             trace: slot.trace.clone(),
             chain: slot.chain,
             proto: slot.proto,
+            valid: slot.valid.clone(),
         };
         self.rep.count("fault.shared_handle_clone", 1);
         self.push_slot(w, new);
@@ -1294,7 +1367,7 @@ impl<'a, F: Function + MathFunction + Clone + Cross> World<'a, F> {
                 let n = boxes.len() as u32;
                 boxes[self.ch(|c| c.choose("rh_which", n)) as usize].clone()
             } else {
-                let b = self.draw_box(nvars);
+                let b = self.draw_box_for(s, nvars);
                 boxes.push(b.clone());
                 b
             };
@@ -1500,10 +1573,19 @@ impl<'a, F: Function + MathFunction + Clone + Cross> World<'a, F> {
                         let bx = if li == 0 { &bx } else { &sub };
                         self.rep.evaluations += 1;
                         self.st.borrow_mut().log_digest("rh", d.digest());
-                        let ok: Vec<bool> = pts
+                        let mut ok: Vec<bool> = pts
                             .iter()
                             .map(|p| self.nan_free(proto, &parent_clean, p))
                             .collect();
+                        if let Res::Float(rows) = c {
+                            if rows.len() == 1 {
+                                for (k, v) in rows[0].iter().enumerate() {
+                                    if *v == 0x7fc0_0000 && k < ok.len() {
+                                        ok[k] = false;
+                                    }
+                                }
+                            }
+                        }
                         let keep = |r: &Res| -> Vec<u32> {
                             match r {
                                 Res::Float(rows) if rows.len() == 1 => rows[0]
